@@ -159,7 +159,7 @@ def multi_schedule(r, adversarial=False):
     return toks
 
 
-ARITY = {"BB": 4, "RX": 1, "PL": 2, "R": 1, "G": 1, "W": 0, "WE": 0, "D": 1, "T": 1, "CA": 0, "CF": 0, "SEL": 1, "P": 1, "PS": 2, "PG": 3, "PT": 2, "B": 1, "H": 0, "U": 0, "RN": 2, "RS": 2, "AW": 1}
+ARITY = {"BB": 4, "RX": 1, "PL": 2, "R": 1, "G": 1, "W": 0, "WE": 0, "D": 1, "T": 1, "CA": 0, "CF": 0, "SEL": 1, "P": 1, "PS": 2, "PG": 3, "PT": 2, "B": 1, "H": 0, "U": 0, "RN": 2, "RS": 2, "AW": 1, "HR": 0}
 
 
 def regress_schedules(pid):
@@ -391,6 +391,11 @@ def check_C11(chk, tier, seed):
         cases.append((line(toks), toks, "answered-then-ended"))
         toks = ["R c1", "W", "R c2", f"G {hx(g)}", "P c2", "P c1", f"B {end}", "W"]
         cases.append((line(toks), toks, "answered-then-ended"))
+    # the caller drives handle() from a select! / timeout of its own: the handle() future is dropped while the connection is idle
+    # (nothing half-read) and handle() is called again on the same ClientHandler - the requests in flight are still answered
+    for toks in (["R d1", "W", "R d2", "W", "HR", "P d1", "P d2"], ["R d1", "W", "HR", "HR", "P d1"], ["R d1", "W", "P d1", "HR", "R d2", "W", "P d2"],
+                 ["R d1", "W", "R d2", "W", "P d2", "HR", "R d3", "W", "P d3", "HR", "P d1"]):
+        cases.append((line(toks), toks, True))
     # adversarial peers (safety only): unsolicited, duplicated, wrong-id answers
     for k in range(300 if tier == "quick" else 20000):
         r = rng.fork(f"a{k}")
@@ -611,6 +616,11 @@ def check_C12(chk, tier, seed):
     for k, (nout, kind) in enumerate([(260, "garbage"), (270, "eof"), (258, "reset")] if tier == "quick" else [(260, "garbage"), (270, "eof"), (258, "reset"), (290, "garbage"), (257, "eof"), (280, "unknownavp")]):
         toks = [f"RN {nout} {hx(0x2000)}", f"BB {kind} 130 {hx(0x1000)} {k % 8}"]
         cases.append((line(toks), toks, "burst"))
+    # a future that was looked at once while pending and is then awaited by another task: when the reader stops (or the answer comes)
+    # it is THAT task that must be woken
+    for toks in (["R e1", "W", "AW 0", "B eof"], ["R e1", "W", "R e2", "W", "AW 1", "AW 0", "B garbage"], ["R e1", "W", "T 3e8", "AW 0", "T 3e8", "B reset"],
+                 ["R e1", "W", "AW 0", "P e1"], ["R e1", "W", "R e2", "W", "AW 0", "P e2", "B eof"]):
+        cases.append((line(toks), toks, "awaited-elsewhere"))
     lines = [c[0] for c in cases]
     # the model's state is a chain of function updates over unary numbers: histories with more than a few hundred requests
     # are judged by the property predicate alone (no model run)
